@@ -16,15 +16,15 @@ import (
 
 func init() {
 	register(&Property{
-		ID:        "C01",
-		Title:     "Filter evaluation returns exactly the entities satisfying the predicate",
-		Technique: "static analysis: complete decision tables of the typed comparison/between/null evaluators by abstract interpretation over (nil?, ordering, operator); decision table of the seek-shortcut admission; operator-token/spelling tables compared with the grammar; never-written-operand rule for typed nodes; cursor re-position rule for per-row set symbols",
-		LevelText: "Taken whole the property is about results on all datasets × filters and is not statically decidable here. Decided, for all values because values are only touched through comparisons: the full decision table of every Binary*ExprNode / *BetweenExprNode / IsNilExprNode evaluator against the documented semantics (null makes comparisons false except != and the negated contains forms; between is [lower, upper)); that the anyOf seek shortcut is admitted only for `=` (the only operator for which looking at the first element >= v decides the answer) and falls back to a scan when the cursor cannot seek; that every operator token and every spelling the grammar can produce has an operator; that icontains upper-cases both operands; that no typed node has an operand nobody ever sets; that a per-row set cursor is re-positioned whenever it is re-opened. Not decided: that cursors enumerate the right sets (partly C14), dotted-symbol resolution, sub-query scanning, numeric formatting.",
-		LevelNote: "Trusted: go/types, x/tools SSA, the DECIDE interpreter (rejects what it cannot evaluate), strings.Contains/ToUpper, time.Time comparisons.",
-		DesignRef: "DESIGN.md C01",
+		ID:          "C01",
+		Title:       "Filter evaluation returns exactly the entities satisfying the predicate",
+		Technique:   "static analysis: complete decision tables of the typed comparison/between/null evaluators by abstract interpretation over (nil?, ordering, operator); decision table of the seek-shortcut admission; operator-token/spelling tables compared with the grammar; never-written-operand rule for typed nodes; cursor re-position rule for per-row set symbols",
+		LevelText:   "Taken whole the property is about results on all datasets × filters and is not statically decidable here. Decided, for all values because values are only touched through comparisons: the full decision table of every Binary*ExprNode / *BetweenExprNode / IsNilExprNode evaluator against the documented semantics (null makes comparisons false except != and the negated contains forms; between is [lower, upper)); that the anyOf seek shortcut is admitted only for `=` (the only operator for which looking at the first element >= v decides the answer) and falls back to a scan when the cursor cannot seek; that every operator token and every spelling the grammar can produce has an operator; that icontains upper-cases both operands; that no typed node has an operand nobody ever sets; that a per-row set cursor is re-positioned whenever it is re-opened. Not decided: that cursors enumerate the right sets (partly C14), dotted-symbol resolution, sub-query scanning, numeric formatting.",
+		LevelNote:   "Trusted: go/types, x/tools SSA, the DECIDE interpreter (rejects what it cannot evaluate), strings.Contains/ToUpper, time.Time comparisons.",
+		DesignRef:   "DESIGN.md C01",
 		Explanation: "Sites: 5 Binary*ExprNode.EvalBool, 3 *BetweenExprNode.EvalBool, IsNilExprNode.EvalBool, BinaryStringExprNode.IsSeekable/EvalBoolWithSeek, AnyOfSetExprNode.EvalBool, ToBoltListener.VisitTerminal, BinaryExprNode.handleCaseInsensitive, all ast.Node struct fields, entitySetSymbolRuntime.",
-		Trusted:   []string{"go/types", "golang.org/x/tools/go/ssa v0.29.0", "strings, time"},
-		Rules:     rulesC01,
+		Trusted:     []string{"go/types", "golang.org/x/tools/go/ssa v0.29.0", "strings, time"},
+		Rules:       rulesC01,
 	})
 }
 
@@ -39,6 +39,9 @@ func rulesC01(c *Ctx) {
 		isCT[ct.named] = true
 	}
 	ruleC14Reposition(c, cts, isCT)
+	// coercions decode the stored bytes: a fixed-width decode may run only under a tag of that width
+	ruleDecodeWidth(c, "C01.DECODE")
+	ruleC01NullElem(c)
 }
 
 // opConsts returns the BinaryOp constants by name.
@@ -746,4 +749,67 @@ func edgeTakenFor(pred, blk *ssa.BasicBlock, opFld *types.Var, in int64) bool {
 		prev, cur = cur, next
 	}
 	return false
+}
+
+// ruleC01NullElem: a single-valued hop of a dotted set symbol contributes exactly one element per
+// linked entity — including a null one (the type-tagged nil), which the set operators must see.
+// fkQueryPath.Next hands out `value` once and nil ("exhausted") afterwards, so every constructed
+// fkQueryPath must have `value` set to a provably non-nil slice before it leaves its constructor.
+func ruleC01NullElem(c *Ctx) {
+	p := c.P
+	fk := p.Named("boltz", "fkQueryPath")
+	valueFld := p.Field("boltz", "fkQueryPath", "value")
+	prepend := p.Func("boltz", "PrependFieldType")
+	// PrependFieldType never returns nil: every return is a fresh make()
+	pf := p.SSAFunc(prepend)
+	okP := true
+	for _, r := range returnsOf(pf) {
+		if _, isMake := r.Results[0].(*ssa.MakeSlice); !isMake {
+			okP = false
+		}
+	}
+	c.Check(okP, "C01.NULLELEM", FnName(pf)+": result is never nil", p.Pos(pf.Pos()), "every return is a freshly made slice holding at least the type tag", "PrependFieldType can return something other than a fresh slice: a nil value would read as an exhausted path element")
+	nonNilSlice := func(v ssa.Value) bool {
+		switch x := v.(type) {
+		case *ssa.MakeSlice:
+			return true
+		case *ssa.Call:
+			return isCallTo(x, prepend)
+		}
+		return false
+	}
+	n := 0
+	for _, fn := range c.prodFuncs("boltz") {
+		for _, b := range fn.Blocks {
+			for _, in := range b.Instrs {
+				al, ok := in.(*ssa.Alloc)
+				if !ok || namedOf(derefType(al.Type())) != fk {
+					continue
+				}
+				n++
+				c.Analysed(FnName(fn))
+				good := func(i ssa.Instruction) bool {
+					st, ok := i.(*ssa.Store)
+					if !ok {
+						return false
+					}
+					f, base := fieldOfAddr(st.Addr)
+					return sameVar(f, valueFld) && base == ssa.Value(al) && nonNilSlice(st.Val)
+				}
+				ri := reachWithoutFrom(fn, al, good)
+				escape := ""
+				for _, r := range *al.Referrers() {
+					switch r.(type) {
+					case *ssa.FieldAddr, *ssa.DebugRef:
+						continue
+					}
+					if ri.Reaches(r) {
+						escape = describeInstr(r) + " at " + p.Pos(r.Pos())
+					}
+				}
+				c.Check(escape == "", "C01.NULLELEM", FnName(fn)+": fkQueryPath construction", p.Pos(al.Pos()), "value is set from PrependFieldType (type tag + bytes, never nil) on every path before the element is handed out, so a null field still yields one element", "a path hands out the element ("+escape+") without value set to a non-nil tagged slice: a null field then contributes no element, and allOf/anyOf/count over the dotted symbol silently ignore it")
+			}
+		}
+	}
+	c.Floor("C01.NULLELEM", 2)
 }
